@@ -19,6 +19,8 @@ from pdfminer.pdftypes import (
     LITERALS_FLATE_DECODE,
     LITERALS_JBIG2_DECODE,
     LITERALS_JPX_DECODE,
+    PDFStream,
+    resolve1,
 )
 
 PIL_ERROR_MESSAGE = (
@@ -208,7 +210,12 @@ class ImageWriter:
             filters = image.stream.get_filters()
             for filter_name, params in filters:
                 if filter_name in LITERALS_JBIG2_DECODE:
-                    global_streams.append(params["JBIG2Globals"].resolve())
+                    # /JBIG2Globals is optional (ISO 32000-1 Table 12)
+                    globals_ = None
+                    if isinstance(params, dict):
+                        globals_ = resolve1(params.get("JBIG2Globals"))
+                    if isinstance(globals_, PDFStream):
+                        global_streams.append(globals_)
 
             if len(global_streams) > 1:
                 msg = (
